@@ -1,5 +1,6 @@
 import Lemmas.LogHandlers
 import Lemmas.LogHandlersErrs
+import Lemmas.TraceProto
 /-! # C13 — log handlers deliver each record whole, once, to every sink
 
 Property theorems only.  The definitions (`TL.render`, `TL.deliver`, `TL.withGroup`, `TL.withAttrs`, `TL.Buf.*`,
@@ -163,7 +164,7 @@ theorem derive_isolated_sibling (σ : Store) (h : TL.Handler) (as bs : List Attr
     state of the channel and of the sink (stalled or not, full or not), touches the sink only when the sink is not
     stalled, and keeps the channel within its capacity.  (In the sequential model "does not block" is the totality of
     this step: its result never depends on a later consumer step.) -/
-theorem buffered_never_blocks (sk : SinkSt) (sink : Nat) (line : Bytes) (b : Buf) (hb : sk.buf = some b)
+theorem buf_handle_returns_nil (sk : SinkSt) (sink : Nat) (line : Bytes) (b : Buf) (hb : sk.buf = some b)
     (hq : b.queue.length ≤ b.cap) :
     (TL.deliver sk sink line).2.2 = Ret.nil ∧
     (sk.held = true → (TL.deliver sk sink line).2.1 = []) ∧
@@ -186,7 +187,7 @@ theorem buffered_never_blocks (sk : SinkSt) (sink : Nat) (line : Bytes) (b : Buf
     · simp only [Buf.drain]; exact h2.2.trans hsend.2
 
 /-- "may drop records when full": a record is dropped exactly when the channel is full at that moment -/
-theorem buffered_drop_only_when_full (b : Buf) (x : Bytes) :
+theorem buf_send_drops_iff_full (b : Buf) (x : Bytes) :
     ((b.send x).2 = false ↔ b.queue.length ≥ b.cap) ∧
     ((b.send x).2 = true → (b.send x).1.queue = b.queue ++ [x]) ∧
     ((b.send x).2 = false → (b.send x).1 = b) := by
@@ -196,7 +197,7 @@ theorem buffered_drop_only_when_full (b : Buf) (x : Bytes) :
     an empty channel, what reached the sink is a prefix of the accepted records (FIFO, each whole and unchanged),
     the rest is still pending, nothing else exists; and the accepted records are a subsequence of the records sent —
     so no record reaches the sink twice or out of order, and none is invented or cut -/
-theorem buffered_no_dup_no_tear (cap : Nat) (ops : List BOp) :
+theorem buf_fifo_no_dup_no_tear (cap : Nat) (ops : List BOp) :
     let t := ops.foldl Run.step { buf := { cap := cap } }
     t.written ++ t.buf.pending = t.accepted ∧ t.accepted.Sublist (sentOf ops) ∧ t.buf.queue.length ≤ cap := by
   intro t
@@ -206,6 +207,86 @@ theorem buffered_no_dup_no_tear (cap : Nat) (ops : List BOp) :
   simp only [List.nil_append] at hm
   show (ops.foldl Run.step { buf := { cap := cap } }).accepted.Sublist (sentOf ops)
   rw [hm]; exact hs
+
+/-! ## tracelog, buffered mode: the protocol under EVERY schedule (`Model/TraceProto.lean`)
+
+`N` producer goroutines, one delivery goroutine, a channel of capacity `cfg.cap`; `Handle` = the atomic step `fmt`
+(format into a fresh buffer) followed by the atomic step `send` (the `select` with `default`); the delivery goroutine
+alternates `recv` and `finish o` (the sink's `Write` returns — after any number of steps of the others — normally,
+with an error that is ignored, or by a panic that kills the goroutine).  A schedule is any list of actions. -/
+
+section Protocol
+open TraceProto
+
+/-- "buffered mode … never blocks": a `Handle` call is exactly two steps of its own goroutine and both are enabled in
+    EVERY state — whatever the channel holds (also when it is full), whatever the delivery goroutine is doing (idle,
+    stuck inside a `Write` that never returns, dead) and whatever the other producers do in between (`mid`: any
+    actions of others): after `fmt p`, `mid`, `send p` the producer has finished the call (`pending = none`) and moved
+    on to its next record -/
+theorem buffered_never_blocks (cfg : Config) (s : State) (p : Nat) (pr : Prod) (l : TraceProto.Bytes) (mid : List Act)
+    (hp : s.prods[p]? = some pr) (hidle : pr.pending = none) (hrec : cfg.line p pr.next = some l)
+    (hmid : ∀ a ∈ mid, a.ofProd p = false) :
+    (run cfg s (Act.fmt p :: mid ++ [Act.send p])).prods[p]? = some { next := pr.next + 1, pending := none } := by
+  have h1 := fmt_completes cfg s p pr l hp hidle hrec
+  have h2 := run_other cfg mid (step cfg s (.fmt p)) p hmid
+  rw [h1] at h2
+  have h3 := send_completes cfg (run cfg (step cfg s (.fmt p)) mid) p _ ⟨p, pr.next, l⟩ h2 rfl
+  simpa [run, List.foldl_append] using h3
+
+/-- "… never tears, duplicates" and per-producer FIFO, for every number of producers and every schedule from the
+    start: every `Write` the sink received is exactly the line `Handle` formatted for one record of one producer; no
+    record reaches the sink twice; the records of each producer arrive in that producer's program order; and
+    globally the sink has received, in order, a prefix of the accepted sends (what was accepted and is not yet
+    written is in the delivery goroutine's hands or in the channel — nothing else exists) -/
+theorem buffered_no_tear_no_dup (cfg : Config) (n : Nat) (sched : List Act) :
+    let s := run cfg (init n) sched
+    (∀ x ∈ s.writes, cfg.line x.pid x.idx = some x.line) ∧
+    (s.writes.map fun x => (x.pid, x.idx)).Nodup ∧
+    (∀ p, ((s.writes.filter (·.pid == p)).map (·.idx)).Pairwise (· < ·)) ∧
+    s.writes ++ s.cons.items ++ s.chan = accepted s ∧
+    s.writes.Sublist (s.events.map (·.item)) := by
+  intro s
+  have h := inv_run cfg sched (init n) (inv_init cfg n)
+  exact ⟨writes_lines cfg s h, nodup_of_before _ (writes_before cfg s h),
+    fun p => producer_order_of_before _ p (writes_before cfg s h), h.fifo, writes_sublist_events cfg s h⟩
+
+/-- "may drop records when full": a record is dropped ONLY if the channel held `BufferDepth` records at its `select`
+    step, and it is accepted whenever it held fewer; the channel never exceeds its capacity -/
+theorem buffered_drop_only_when_full (cfg : Config) (n : Nat) (sched : List Act) :
+    let s := run cfg (init n) sched
+    (∀ e ∈ s.events, (e.accepted = false → e.lenAtSend = cfg.cap) ∧ (e.lenAtSend < cfg.cap → e.accepted = true)) ∧
+    s.chan.length ≤ cfg.cap := by
+  intro s
+  have h := inv_run cfg sched (init n) (inv_init cfg n)
+  refine ⟨fun e he => ?_, h.cap⟩
+  obtain ⟨h1, h2⟩ := h.full e he
+  refine ⟨fun hf => ?_, h2.mpr⟩
+  by_cases hlt : e.lenAtSend < cfg.cap
+  · rw [h2.mpr hlt] at hf; cases hf
+  · omega
+
+/-- every completed `select` is in the log exactly once, in each producer's program order, with the line that was
+    formatted for it (accepted or dropped): nothing handled is lost track of -/
+theorem buffered_events_in_program_order (cfg : Config) (n : Nat) (sched : List Act) :
+    let s := run cfg (init n) sched
+    (∀ e ∈ s.events, cfg.line e.item.pid e.item.idx = some e.item.line) ∧
+    ((s.events.map (·.item)).map fun x => (x.pid, x.idx)).Nodup ∧
+    (∀ p, (((s.events.map (·.item)).filter (·.pid == p)).map (·.idx)).Pairwise (· < ·)) := by
+  intro s
+  have h := inv_run cfg sched (init n) (inv_init cfg n)
+  exact ⟨h.lines, nodup_of_before _ h.order, fun p => producer_order_of_before _ p h.order⟩
+
+/-- non-vacuity: three producers, capacity 1, a sink that never returns — the first record is in the delivery
+    goroutine's hands, the second in the channel, the third is dropped having seen a full channel; all three calls
+    have returned -/
+example :
+    let cfg : Config := { cap := 1, line := fun p i => if i = 0 then some [p] else none }
+    let s := run cfg (init 3) [.fmt 0, .send 0, .recv, .fmt 1, .send 1, .fmt 2, .send 2]
+    s.events.map (fun e => (e.accepted, e.lenAtSend)) = [(true, 0), (true, 0), (false, 1)] ∧
+    s.cons = .writing ⟨0, 0, [0]⟩ ∧ s.chan = [⟨1, 0, [1]⟩] ∧ s.prods.map (·.pending) = [none, none, none] := by
+  decide
+
+end Protocol
 
 /-! ## multilog -/
 
